@@ -11,3 +11,7 @@ open Lungo.C19
 #print axioms map_sum_zero
 #print axioms expire_noop_unchanged
 #print axioms ttl_single_field
+#print axioms columns_paths
+#print axioms newIndex_key_plain
+#print axioms newColl_ttl_plain
+#print axioms createIndex_keeps_ttl_plain
